@@ -81,6 +81,8 @@ def run_batch(name, progs, rng, tapes=3, histlen=10, budget=120, want_tmp=False,
     """Compile and run programs (two rounds: files that fail are re-run one function per file).
     Returns dict(status={prog: 'ok'|reason}, cases=[...], out=[...], ref=[...], tmp=[...]|None)."""
     status, cases_all, out_all, ref_all = {}, [], [], []
+    struct_entries = []
+    import structcheck
     todo = list(progs)
     for rnd in range(2):
         if not todo:
@@ -98,6 +100,14 @@ def run_batch(name, progs, rng, tapes=3, histlen=10, budget=120, want_tmp=False,
                 open(os.path.join(b.work, "ref", "oc", "oc.go"), "w").write(optcorpus.render("ref"))
                 b.pkgs["oc"] = {"oc": [(nm, None) for nm in optcorpus.GENS]}
             b.compile()
+            # abstract trees of the unoptimised stage, for the structural correspondence with coq/Rewrite.v
+            trees = {}
+            tmpdir = __import__("os").path.join(b.work, "tmp")
+            if __import__("os").path.isdir(tmpdir):
+                for t in structcheck.abstract_dirs(b.work, [tmpdir]):
+                    if "func" in t:
+                        trees[(t["pkg"], t["func"])] = t["start"]
+            compile_status = dict(b.status)
             b.build_out()
             xo = b.write_runner("runout", "out", True)
             xr = b.write_runner("runref", "ref", False)
@@ -105,14 +115,25 @@ def run_batch(name, progs, rng, tapes=3, histlen=10, budget=120, want_tmp=False,
             good = []
             for p in todo:
                 key = "%s.%s" % (p["pkg"], p["name"])
+                final = True
                 if key in b.status:
                     if rnd == 0:
                         retry.append(p)
+                        final = False
                     else:
                         status[p["name"]] = b.status[key]
                 else:
                     good.append(p)
                     status[p["name"]] = "ok"
+                if final and p.get("body") is not None and structcheck.eligible(p["body"]):
+                    try:
+                        src = structcheck.src_stmts(p["body"]) + [{"s": "return"}]   # render_func appends `return nil`
+                        if (p["pkg"], p["name"]) in trees:
+                            struct_entries.append((p["name"], src, ("tree", structcheck.tgt_sexp(trees[(p["pkg"], p["name"])]))))
+                        elif compile_status.get(key, "").startswith("compile-panic(rewrite)"):
+                            struct_entries.append((p["name"], src, ("rejected",)))
+                    except structcheck.Unknown as ex:
+                        struct_entries.append((p["name"], None, ("unknown", str(ex))))
             cases = make_cases(rng, good, tapes=tapes, histlen=histlen, budget=budget)
             if oc and rnd == 0:
                 for nm in optcorpus.GENS:
@@ -128,4 +149,4 @@ def run_batch(name, progs, rng, tapes=3, histlen=10, budget=120, want_tmp=False,
             todo = retry
         finally:
             b.close()
-    return {"status": status, "cases": cases_all, "out": out_all, "ref": ref_all}
+    return {"status": status, "cases": cases_all, "out": out_all, "ref": ref_all, "struct": struct_entries}
